@@ -1284,6 +1284,23 @@ func offsetExprOK(v ssa.Value, method string) (bool, string) {
 			}
 		}
 	}
+	// a row term that is a product of two run-time values must be a multiple of the plane's stride: i*width
+	// addresses the wrong row whenever the stride exceeds the row width (sub-images, padded planes)
+	for k := range a.Terms {
+		if mul, ok := k.(*ssa.BinOp); ok && mul.Op == token.MUL {
+			strideFactor := false
+			for _, o := range []ssa.Value{mul.X, mul.Y} {
+				if u, ok := o.(*ssa.UnOp); ok && u.Op == token.MUL {
+					if fa, ok := u.X.(*ssa.FieldAddr); ok && strings.HasSuffix(fieldName(fa.X.Type(), fa.Field), "Stride") {
+						strideFactor = true
+					}
+				}
+			}
+			if !strideFactor {
+				return false, a.String() + " (row term " + shortVal(mul) + " is not a multiple of the stride)"
+			}
+		}
+	}
 	if hasMethod || hasStride {
 		return true, ""
 	}
